@@ -30,11 +30,16 @@ def cmp3(a, b, rtol=RTOL, atol=0.0):
     return "lt" if a < b else "gt"
 
 
+class StepCap(Exception):
+    pass
+
+
 class Observer:
     """coupling model: snapshot after every accepted step"""
-    def __init__(self, model):
+    def __init__(self, model, cap=1200):
         self.m = model
         self.snaps = []
+        self.cap = cap
 
     def snapshot(self):
         m = self.m
@@ -53,6 +58,8 @@ class Observer:
 
     def updateCoupledModel(self, model):
         self.snaps.append(self.snapshot())
+        if len(self.snaps) >= self.cap:
+            raise StepCap()
 
 
 def build(cfg):
@@ -89,7 +96,7 @@ def build(cfg):
     m.setPSDrecording(True)
     if cfg.get("constraints"):
         m.setConstraints(**cfg["constraints"])
-    obs = Observer(m)
+    obs = Observer(m, cfg.get("cap", 1200))
     m.addCouplingModel(obs)
     return m, th, obs
 
@@ -110,8 +117,11 @@ def run(cfg):
     try:
         first = True
         for (span, maxfrac) in cfg["calls"]:
+            if first:
+                m.setup()      # idempotent public call; table builds made here belong to row 0, not to the first step
+                out["lookups0"] = len(th.lookupT)
+                out["bins0"] = [int(p.bins) for p in m.PBM]
             if first and cfg.get("load"):
-                m.setup()
                 ld = cfg["load"]
                 for pi, (r0, r1, dens) in enumerate(ld):
                     pbm = m.PBM[pi]
@@ -119,12 +129,13 @@ def run(cfg):
                     sel = (pbm.PSDsize >= r0) & (pbm.PSDsize <= r1)
                     psd[sel] = dens
                     pbm.PSD = psd
-                m._isSetup = True
             first = False
             n0 = m.pData.n
             t_start = float(m.pData.time[m.pData.n])
             m.solve(span, solverType=it, minDtFrac=cfg.get("minfrac", 1e-8), maxDtFrac=maxfrac)
             out["ends"].append((n0, int(m.pData.n), t_start, span, float(m.pData.time[m.pData.n])))
+    except StepCap:
+        out["capped"] = True
     except Exception as ex:  # noqa
         import traceback
         out["error"] = "%s: %s" % (type(ex).__name__, str(ex)[:300])
@@ -157,7 +168,7 @@ def project(cfg, res):
     ends = {e[1]: e for e in res["ends"]}
     starts = {e[0] for e in res["ends"]}
     prev = None
-    lookups_before = 0
+    lookups_before = res.get("lookups0", 0)
     # lookups made during setup (row 0)
     for k, s in enumerate(snaps):
         n = s["n"]
@@ -177,7 +188,8 @@ def project(cfg, res):
         if hasattr(th, "lookupT"):
             for (pname, Tl, size) in th.lookupT[lookups_before:s["lookups"]]:
                 pi = list(m.phases).index(pname)
-                built.append([pi + 1, mk(Tl), bool(size == len(s["bounds"][pi]))])
+                nprev = len(prev["bounds"][pi]) if prev is not None else res.get("bins0", [0] * P)[pi] + 1
+                built.append([pi + 1, mk(Tl), bool(size in (len(s["bounds"][pi]), nprev))])
             lookups_before = s["lookups"]
         e["built"] = built
         e["xeqcmp"] = []
@@ -229,10 +241,12 @@ def project(cfg, res):
             clamped = bool(rc <= m.precipitateParameters[p].Rmin * (1 + 1e-12)) or row["drivingForce"][p] <= 0
             sg = []
             if not clamped and len(g) == len(s["bounds"][p]):
-                for R, gi in zip(s["bounds"][p], g):
+                for bi, (R, gi) in enumerate(zip(s["bounds"][p], g)):
+                    if bi <= s["rdf"][p]:
+                        continue      # radii at which the precipitate is reported unstable are outside the law's range
                     rel = cmp3(float(R), rc, rtol=1e-6)
                     sg.append([rel, int(np.sign(gi))])
-            q["gsign"] = sg
+            q["gsign"] = [list(t) for t in sorted(set((a, b) for a, b in sg))]
             q["rdf"] = s["rdf"][p]
             ph.append(q)
             sumfv += vf
@@ -256,6 +270,8 @@ def project(cfg, res):
         prev = s
     if res["error"]:
         ev.append({"e": "exception", "msg": res["error"]})
+    elif res.get("capped"):
+        ev.append({"e": "done", "n": len(snaps), "rows": len(snaps)})
     else:
         ev.append({"e": "done", "n": int(d.n), "rows": len(snaps)})
     return ev
